@@ -37,8 +37,19 @@ func isAtomicEventFunc(name string) bool {
 	return false
 }
 
-func schedWrappersSource() string {
+// schedWrappersSource: only the wrappers whose imports the package already has (the import configuration of a package
+// of the module cache is not recomputed from overlay contents).
+func schedWrappersSource(needAtomic, needClock bool) string {
 	var b strings.Builder
+	if needClock {
+		b.WriteString(`
+var VerifTimeNow = verifschedtime.Now
+
+func verifTime_Now() verifschedtime.Time                            { return VerifTimeNow() }
+func verifTime_Since(t verifschedtime.Time) verifschedtime.Duration { return VerifTimeNow().Sub(t) }
+func verifTime_Until(t verifschedtime.Time) verifschedtime.Duration { return t.Sub(VerifTimeNow()) }
+`)
+	}
 	b.WriteString("\nvar VerifSchedBefore = func() {}\nvar VerifSchedAfter = func() {}\n\n")
 	b.WriteString("func verifSchedDo(f func()) { VerifSchedBefore(); f(); VerifSchedAfter() }\n")
 	var tns []string
@@ -46,6 +57,9 @@ func schedWrappersSource() string {
 		tns = append(tns, tn)
 	}
 	sort.Strings(tns)
+	if !needAtomic {
+		tns = nil
+	}
 	for _, tn := range tns {
 		t := atomicTypes[tn]
 		fmt.Fprintf(&b, "func verifAtomic_Add%s(p *%s, d %s) %s { VerifSchedBefore(); r := verifschedatomic.Add%s(p, d); VerifSchedAfter(); return r }\n", tn, t, t, t, tn)
@@ -82,7 +96,7 @@ func verifSM_Delete(f func(interface{}), k interface{})        { VerifSchedBefor
 // instrumentSched returns overlay entries (virtual path -> temp file) for the instrumented packages, the rewritten
 // sources by original path (so that rewriteForNative can work on top of them), and the lines that connect the hook
 // variables of packages other than the harness package.
-func instrumentSched(tmp, moduleDir string, harnessPkgPath string, pkgPaths []string, overlay map[string]string) (files map[string][]byte, extra map[string]string, hookImports, hookAssigns []string, err error) {
+func instrumentSched(tmp, moduleDir string, harnessPkgPath string, pkgPaths []string, overlay map[string]string, doSched, doClock bool) (files map[string][]byte, extra map[string]string, hookImports, hookAssigns []string, err error) {
 	files = map[string][]byte{}
 	extra = map[string]string{}
 	ov := map[string][]byte{}
@@ -107,21 +121,33 @@ func instrumentSched(tmp, moduleDir string, harnessPkgPath string, pkgPaths []st
 		if len(p.Errors) > 0 {
 			return nil, nil, nil, nil, fmt.Errorf("instrumentSched: %s: %v", p.PkgPath, p.Errors[0])
 		}
-		any := false
+		any, needAtomic, needClock := false, false, false
 		for i, af := range p.Syntax {
 			fn := p.CompiledGoFiles[i]
-			if strings.HasSuffix(fn, "_test.go") || strings.Contains(filepath.Base(fn), "zz_verif_") {
+			if strings.HasSuffix(fn, "_test.go") || filepath.Base(fn) == "zz_verif_rt.go" {
 				continue
 			}
-			src, e := os.ReadFile(fn)
-			if e != nil {
-				continue
+			src, ok := ov[fn]
+			if !ok {
+				var e error
+				src, e = os.ReadFile(fn)
+				if e != nil {
+					continue
+				}
 			}
-			edits := schedEdits(p, af)
+			edits := schedEdits(p, af, doSched, doClock)
 			if len(edits) == 0 {
 				continue
 			}
 			any = true
+			for _, ed := range edits {
+				if strings.HasPrefix(ed.text, "verifAtomic_") {
+					needAtomic = true
+				}
+				if strings.HasPrefix(ed.text, "verifTime_") {
+					needClock = true
+				}
+			}
 			for i := range edits {
 				edits[i].seq = i
 			}
@@ -138,13 +164,14 @@ func instrumentSched(tmp, moduleDir string, harnessPkgPath string, pkgPaths []st
 			}
 			// keep a possibly now-unused sync/atomic import alive
 			for _, im := range af.Imports {
-				if im.Path.Value == `"sync/atomic"` {
-					alias := "atomic"
+				keep := map[string]string{`"sync/atomic"`: "atomic.LoadInt32", `"time"`: "time.Now"}[im.Path.Value]
+				if keep != "" {
+					alias := strings.Split(keep, ".")[0]
 					if im.Name != nil {
 						alias = im.Name.Name
 					}
 					if alias != "_" && alias != "." {
-						out += "\nvar _ = " + alias + ".LoadInt32\n"
+						out += "\nvar _ = " + alias + "." + strings.Split(keep, ".")[1] + "\n"
 					}
 				}
 			}
@@ -168,21 +195,34 @@ func instrumentSched(tmp, moduleDir string, harnessPkgPath string, pkgPaths []st
 			}
 			out := string(files[first])
 			at := p.Fset.Position(af.Name.End()).Offset // edits are all behind the package clause
-			out = out[:at] + "\n\nimport verifschedatomic \"sync/atomic\"\n" + out[at:] + schedWrappersSource()
+			imports := "\n\n"
+			if needAtomic {
+				imports += "import verifschedatomic \"sync/atomic\"\n"
+			}
+			if needClock {
+				imports += "import verifschedtime \"time\"\n"
+			}
+			out = out[:at] + imports + out[at:] + schedWrappersSource(needAtomic, needClock)
 			files[first] = []byte(out)
 		}
 		if p.PkgPath == harnessPkgPath {
 			hookAssigns = append(hookAssigns, "\tVerifSchedBefore = verifSchedBefore", "\tVerifSchedAfter = verifSchedAfter")
+			if needClock {
+				hookAssigns = append(hookAssigns, "\tVerifTimeNow = verifTimeNow")
+			}
 		} else {
 			alias := fmt.Sprintf("verifsched%d", n)
 			hookImports = append(hookImports, fmt.Sprintf("\t%s %q", alias, p.PkgPath))
 			hookAssigns = append(hookAssigns, fmt.Sprintf("\t%s.VerifSchedBefore = verifSchedBefore", alias), fmt.Sprintf("\t%s.VerifSchedAfter = verifSchedAfter", alias))
+			if needClock {
+				hookAssigns = append(hookAssigns, fmt.Sprintf("\t%s.VerifTimeNow = verifTimeNow", alias))
+			}
 		}
 	}
 	return files, extra, hookImports, hookAssigns, nil
 }
 
-func schedEdits(p *packages.Package, af *ast.File) []textEdit {
+func schedEdits(p *packages.Package, af *ast.File, doSched, doClock bool) []textEdit {
 	var edits []textEdit
 	off := func(pos token.Pos) int { return p.Fset.Position(pos).Offset }
 	ast.Inspect(af, func(n ast.Node) bool {
@@ -199,7 +239,18 @@ func schedEdits(p *packages.Package, af *ast.File) []textEdit {
 			return true
 		}
 		sig := obj.Type().(*types.Signature)
-		switch obj.Pkg().Path() {
+		path := obj.Pkg().Path()
+		if (path == "time" && !doClock) || (path != "time" && !doSched) {
+			return true
+		}
+		switch path {
+		case "time":
+			if sig.Recv() == nil && doClock {
+				switch obj.Name() {
+				case "Now", "Since", "Until":
+					edits = append(edits, textEdit{start: off(call.Fun.Pos()), end: off(call.Fun.End()), text: "verifTime_" + obj.Name()})
+				}
+			}
 		case "sync/atomic":
 			if sig.Recv() == nil && isAtomicEventFunc(obj.Name()) {
 				edits = append(edits, textEdit{start: off(call.Fun.Pos()), end: off(call.Fun.End()), text: "verifAtomic_" + obj.Name()})
